@@ -61,6 +61,7 @@ inductive Rhs where
   | sub         -- same class, payload of a subclass of the left payload's type
   | otherType   -- same class, payload of an unrelated type
   | foreign     -- a bare object without `.value`
+  | identical   -- `x` itself: the same wrapper object on both sides (the case's `b` equals `a`)
   deriving DecidableEq, Repr, FromJson, ToJson, Inhabited
 
 structure Case where
@@ -100,15 +101,17 @@ structure Opd where
   val    : Int
   ty     : Nat        -- class of `.value`
   cmpObj : Bool       -- an instance of the cmp_using class
+  id     : Nat        -- object identity
   deriving DecidableEq, Repr, Inhabited
 
-def leftOpd (c : Case) : Opd := { val := c.a, ty := 0, cmpObj := true }
+def leftOpd (c : Case) : Opd := { val := c.a, ty := 0, cmpObj := true, id := 0 }
 def rightOpd (c : Case) : Opd :=
   match c.rhs with
-  | .same => { val := c.b, ty := 0, cmpObj := true }
-  | .sub => { val := c.b, ty := 1, cmpObj := true }
-  | .otherType => { val := c.b, ty := 2, cmpObj := true }
-  | .foreign => { val := c.b, ty := 3, cmpObj := false }
+  | .same => { val := c.b, ty := 0, cmpObj := true, id := 1 }
+  | .sub => { val := c.b, ty := 1, cmpObj := true, id := 1 }
+  | .otherType => { val := c.b, ty := 2, cmpObj := true, id := 1 }
+  | .foreign => { val := c.b, ty := 3, cmpObj := false, id := 1 }
+  | .identical => { val := c.b, ty := 0, cmpObj := true, id := 0 }
 
 /-- the function supplied for an operator's slot (`__ne__` has no slot) -/
 def slot (c : Case) : Op → Option Rel
@@ -161,11 +164,12 @@ def methodLog (c : Case) (op : Op) (self other : Opd) : List String :=
   else
     if !other.cmpObj then [] else [callEv op self other]
 
-/-- `type(self).__eq__(self, other)`; without `eq` it is `object.__eq__` on two distinct objects -/
+/-- `type(self).__eq__(self, other)`: the supplied function decides, also when `other is self` (there is no
+    identity shortcut); without `eq` it is `object.__eq__` (True for the same object, else NotImplemented) -/
 def dunderEq (c : Case) (self other : Opd) : R :=
   match c.eq with
   | some r => method c r self other
-  | none => .NI
+  | none => if self.id == other.id then .T else .NI
 
 /-- the shared `__ne__` (`result = self.__eq__(other)`; NotImplemented passed on; `not result`), present iff `eq`
     is; otherwise `object.__ne__` (NotImplemented for distinct objects) -/
@@ -175,14 +179,14 @@ def dunderNe (c : Case) (self other : Opd) : R :=
     match dunderEq c self other with
     | .NI => .NI
     | r => r.not
-  | none => .NI
+  | none => if self.id == other.id then .F else .NI
 
-/-- `x == y`: method, reflected method (`object.__eq__` for a foreign right operand), then identity (distinct) -/
+/-- `x == y`: method, reflected method (`object.__eq__` for a foreign right operand), then identity -/
 def opEq (c : Case) (x y : Opd) : R :=
   match dunderEq c x y with
   | .NI =>
     match (if y.cmpObj then dunderEq c y x else .NI) with
-    | .NI => .F
+    | .NI => .ofBool (x.id == y.id)
     | r => r
   | r => r
 
@@ -190,7 +194,7 @@ def opNe (c : Case) (x y : Opd) : R :=
   match dunderNe c x y with
   | .NI =>
     match (if y.cmpObj then dunderNe c y x else .NI) with
-    | .NI => .T
+    | .NI => .ofBool (x.id != y.id)
     | r => r
   | r => r
 
